@@ -114,7 +114,7 @@ def install(I, poll_budget=1):
         cur = st.objs.get(o.oid) if not I.event_mode or o.oid in st.objs else None
         outs = []
         if cur is not None:
-            taken = cur['st'] == 2
+            taken = z3.UGE(cur['st'], 2)
             br = branch(I, st, taken)
         else:
             br = [(st, False)]
@@ -160,6 +160,14 @@ def install(I, poll_budget=1):
             else:
                 outs.append(Outcome(s2, 'ret', err(Enum('TryRecvError', 'Empty', 0, ()))))
         return outs
+
+    @M(r'oneshot::Receiver::<.*>::is_terminated$', 'oneshot::Receiver::is_terminated (already yielded Ready)')
+    def m_os_is_terminated(I, st, f, args, fr):
+        o = obj_at(I, st, args[0])
+        cur = st.objs.get(o.oid)
+        if cur is None:
+            raise Unmodelled('is_terminated on a shared (event-mode) oneshot')
+        return I.ret(st, z3.simplify(z3.UGE(cur['st'], 2)))
 
     @M(r'oneshot::Receiver::<.*>::close$', 'oneshot::Receiver::close')
     def m_os_close(I, st, f, args, fr):
